@@ -40,6 +40,7 @@ def handle (line : String) : String :=
   | "tok" :: rest => handleTok rest
   | "macro" :: rest => handleMacro rest
   | "withmacro" :: rest => handleWithMacro rest
+  | "span" :: rest => handleSpan rest
   | "makeargs" :: rest => handleMakeArgs rest
   | "builderr" :: rest => handleBuildErr rest
   | "getlines" :: rest => handleGetLines rest
